@@ -119,6 +119,7 @@ example : ∀ it ∈ demoCol, WFD 3 it.ctx := by
 example : (zipCombine (fun i => i != 0) 3 2 none demoCol).map (fun v => (v.data, v.bare, v.recover 1)) =
     some ([1, 10], false, [some (.leaf 5), some (.leaf 7), none]) := by decide +kernel
 
+example : zipFieldsInit 2 (.list 2) = .ok (some 2) := rfl  -- hypothesis of `zipFields_list_arity`
 example : zipFieldsInit 2 (.str 3) = .ok (some 3) := rfl
 example : zipFieldsInit 2 (.list 3) = .error .lenaTypeError := rfl
 
